@@ -25,10 +25,14 @@ RSqrtHalf == <<0,1,0,0,1>>          \* 1/sqrt 2
 RHalf == <<1,0,0,0,1>>
 RInt(n) == RNorm(<<n,0,0,0,0>>)
 RScale(x, k) == LET f == 2^(k - x[5]) IN <<x[1]*f, x[2]*f, x[3]*f, x[4]*f, k>>
-RAdd(x, y) == LET k == IF x[5] > y[5] THEN x[5] ELSE y[5]
+RAdd(x, y) == IF x[1] = 0 /\ x[2] = 0 /\ x[3] = 0 /\ x[4] = 0 THEN y
+              ELSE IF y[1] = 0 /\ y[2] = 0 /\ y[3] = 0 /\ y[4] = 0 THEN x ELSE
+              LET k == IF x[5] > y[5] THEN x[5] ELSE y[5]
                   xx == RScale(x, k)  yy == RScale(y, k)
               IN RNorm(<<xx[1]+yy[1], xx[2]+yy[2], xx[3]+yy[3], xx[4]+yy[4], k>>)
-RMul(x, y) == RNorm(<< x[1]*y[1] + 2*x[2]*y[2] - x[3]*y[3] - 2*x[4]*y[4],
+RMul(x, y) == IF (x[1] = 0 /\ x[2] = 0 /\ x[3] = 0 /\ x[4] = 0) \/ (y[1] = 0 /\ y[2] = 0 /\ y[3] = 0 /\ y[4] = 0) THEN <<0,0,0,0,0>>
+              ELSE IF x = <<1,0,0,0,0>> THEN y ELSE IF y = <<1,0,0,0,0>> THEN x ELSE
+              RNorm(<< x[1]*y[1] + 2*x[2]*y[2] - x[3]*y[3] - 2*x[4]*y[4],
                        x[1]*y[2] + x[2]*y[1] - x[3]*y[4] - x[4]*y[3],
                        x[1]*y[3] + x[3]*y[1] + 2*x[2]*y[4] + 2*x[4]*y[2],
                        x[1]*y[4] + x[4]*y[1] + x[2]*y[3] + x[3]*y[2],
